@@ -521,10 +521,9 @@ XIncludeUtils::doXIncludeXMLFileDOM(const XMLCh *href,
                 } else {
                     /* the included node has base of its own which takes precedence */
                     XIncludeLocation xil(getBaseAttrValue(topLevelElement));
-                    if (getBaseAttrValue(includeNode) != NULL){
-                        /* prepend any specific base modification of the xinclude node */
-                        xil.prependPath(getBaseAttrValue(includeNode));
-                    }
+                    /* it is relative to the included document: prepend the path that leads
+                       there (the href, already prefixed with any xml:base of the xinclude node) */
+                    xil.prependPath(relativeHref);
                     topLevelElement->setAttribute(fgXIBaseAttrName, xil.getLocation());
                 }
             }
